@@ -67,3 +67,169 @@ pub fn settings(machine: ZXMachine) -> RustzxSettings {
 pub fn emulator(machine: ZXMachine) -> Emulator<DemoHost> {
     Emulator::new(settings(machine), Ctx).unwrap()
 }
+
+// ---------------------------------------------------------------------------------------------
+// Helpers for the snapshot / screen loader demonstrations
+// ---------------------------------------------------------------------------------------------
+use rustzx_core::host::{DataRecorder, Screen, Snapshot, SnapshotRecorder};
+
+/// In-memory `DataRecorder`
+pub struct VecRecorder<'a>(pub &'a mut Vec<u8>);
+impl DataRecorder for VecRecorder<'_> {
+    fn write(&mut self, buf: &[u8]) -> Result<usize, rustzx_core::error::IoError> {
+        self.0.extend_from_slice(buf);
+        Ok(buf.len())
+    }
+}
+
+pub fn save_sna(e: &mut Emulator<DemoHost>) -> Vec<u8> {
+    let mut out = Vec::new();
+    e.save_snapshot(SnapshotRecorder::Sna(VecRecorder(&mut out))).unwrap();
+    out
+}
+pub fn load_sna(e: &mut Emulator<DemoHost>, file: Vec<u8>) -> rustzx_core::Result<()> {
+    e.load_snapshot(Snapshot::Sna(BufferCursor::new(file)))
+}
+pub fn load_szx(e: &mut Emulator<DemoHost>, file: Vec<u8>) -> rustzx_core::Result<()> {
+    e.load_snapshot(Snapshot::Szx(BufferCursor::new(file)))
+}
+pub fn load_scr(e: &mut Emulator<DemoHost>, file: Vec<u8>) -> rustzx_core::Result<()> {
+    e.load_screen(Screen::Scr(BufferCursor::new(file)))
+}
+pub fn frame(e: &mut Emulator<DemoHost>) {
+    e.emulate_frames(Duration::from_secs(10)).unwrap();
+}
+pub fn peek16(e: &Emulator<DemoHost>, addr: u16) -> u16 {
+    u16::from_le_bytes([e.peek(addr), e.peek(addr.wrapping_add(1))])
+}
+
+/// CPU part of a snapshot
+#[derive(Clone, Copy, Default)]
+pub struct Cpu {
+    pub af: u16,
+    pub bc: u16,
+    pub de: u16,
+    pub hl: u16,
+    pub af_alt: u16,
+    pub bc_alt: u16,
+    pub de_alt: u16,
+    pub hl_alt: u16,
+    pub ix: u16,
+    pub iy: u16,
+    pub sp: u16,
+    pub pc: u16,
+    pub i: u8,
+    pub r: u8,
+    pub im: u8,
+    pub iff: bool,
+    pub border: u8,
+}
+
+/// 48K of zeroed RAM (addresses 0x4000..=0xFFFF)
+pub fn ram48() -> Vec<u8> {
+    vec![0; 0xC000]
+}
+/// writes `bytes` at CPU address `addr` (>= 0x4000) of a 48K RAM image
+pub fn put(ram: &mut [u8], addr: u16, bytes: &[u8]) {
+    let at = addr as usize - 0x4000;
+    ram[at..at + bytes.len()].copy_from_slice(bytes);
+}
+
+fn sna_header(c: &Cpu, sp: u16) -> Vec<u8> {
+    let mut h = vec![c.i];
+    for w in [c.hl_alt, c.de_alt, c.bc_alt, c.af_alt, c.hl, c.de, c.bc, c.iy, c.ix] {
+        h.extend_from_slice(&w.to_le_bytes());
+    }
+    h.push(if c.iff { 4 } else { 0 });
+    h.push(c.r);
+    h.extend_from_slice(&c.af.to_le_bytes());
+    h.extend_from_slice(&sp.to_le_bytes());
+    h.push(c.im);
+    h.push(c.border);
+    assert_eq!(h.len(), 27);
+    h
+}
+
+/// 48K SNA: `c.sp` is the stack pointer the machine has AFTER the load; the file stores SP-2 and PC
+/// on the stack, as the format requires
+pub fn sna48(c: &Cpu, ram: &[u8]) -> Vec<u8> {
+    assert_eq!(ram.len(), 0xC000);
+    let sp = c.sp.wrapping_sub(2);
+    let mut f = sna_header(c, sp);
+    let mut ram = ram.to_vec();
+    put(&mut ram, sp, &c.pc.to_le_bytes());
+    f.extend_from_slice(&ram);
+    f
+}
+
+/// 128K SNA; `banks[n]` is RAM bank n
+pub fn sna128(c: &Cpu, port_7ffd: u8, banks: &[Vec<u8>; 8]) -> Vec<u8> {
+    let mut f = sna_header(c, c.sp);
+    let paged = (port_7ffd & 7) as usize;
+    for b in [5, 2, paged] {
+        f.extend_from_slice(&banks[b]);
+    }
+    f.extend_from_slice(&c.pc.to_le_bytes());
+    f.push(port_7ffd);
+    f.push(0);
+    for b in [0, 1, 3, 4, 6, 7] {
+        if b != paged {
+            f.extend_from_slice(&banks[b]);
+        }
+    }
+    f
+}
+pub fn banks128() -> [Vec<u8>; 8] {
+    core::array::from_fn(|n| {
+        let mut b = vec![0u8; 0x4000];
+        b[0] = 0xB0 + n as u8; // marker
+        b
+    })
+}
+
+pub const SZX_48K: u8 = 1;
+pub const SZX_128K: u8 = 2;
+
+/// SZX file from a machine id and a list of (chunk id, chunk data)
+pub fn szx(machine_id: u8, chunks: &[(&[u8; 4], Vec<u8>)]) -> Vec<u8> {
+    let mut f = b"ZXST".to_vec();
+    f.extend_from_slice(&[1, 5, machine_id, 0]);
+    for (id, data) in chunks {
+        f.extend_from_slice(*id);
+        f.extend_from_slice(&(data.len() as u32).to_le_bytes());
+        f.extend_from_slice(data);
+    }
+    f
+}
+pub const Z80R_EILAST: u8 = 1;
+pub const Z80R_HALTED: u8 = 2;
+/// Z80R chunk (37 bytes)
+pub fn z80r(c: &Cpu, cycles_start: u32, flags: u8) -> Vec<u8> {
+    let mut d = Vec::new();
+    for w in [c.af, c.bc, c.de, c.hl, c.af_alt, c.bc_alt, c.de_alt, c.hl_alt, c.ix, c.iy, c.sp, c.pc] {
+        d.extend_from_slice(&w.to_le_bytes());
+    }
+    d.extend_from_slice(&[c.i, c.r, c.iff as u8, c.iff as u8, c.im]);
+    d.extend_from_slice(&cycles_start.to_le_bytes());
+    d.extend_from_slice(&[0, flags, 0, 0]);
+    assert_eq!(d.len(), 37);
+    d
+}
+/// SPCR chunk (8 bytes)
+pub fn spcr(border: u8, port_7ffd: u8, port_fe: u8) -> Vec<u8> {
+    vec![border, port_7ffd, 0, port_fe, 0, 0, 0, 0]
+}
+/// RAMP chunk with stored (uncompressed) data
+pub fn ramp(page: u8, data: &[u8]) -> Vec<u8> {
+    let mut d = vec![0, 0, page];
+    d.extend_from_slice(data);
+    d
+}
+/// the three RAMP chunks of a 48K machine from a 48K RAM image
+pub fn ramp48(ram: &[u8]) -> Vec<(&'static [u8; 4], Vec<u8>)> {
+    vec![
+        (b"RAMP", ramp(5, &ram[..0x4000])),
+        (b"RAMP", ramp(2, &ram[0x4000..0x8000])),
+        (b"RAMP", ramp(0, &ram[0x8000..])),
+    ]
+}
